@@ -15,13 +15,17 @@ package routes
 //@ ensures result0.Controllers == fullMeta.Flat && result0.Imports == fullMeta.Imports
 //@ ensures implies(config.RoutesConfig.SkipGenerateDateComment, result0.GenerationDate == "")
 
-// Template plumbing: changes package-level template registries (any heap) but causes no event.
-//@ func registerPartials trusted havocs
-//@ func registerHandlebarsHelpers trusted havocs
-//@ func dumpContext trusted havocs
-//@ func getRoutesTemplateString trusted havocs
+// Template plumbing: assumed to change only the template engine's package-level registries (which no contract
+// mentions), never the configuration or the metadata; causes no event.
+//@ func registerPartials trusted
+//@ func registerHandlebarsHelpers trusted
+//@ func dumpContext trusted
+//@ func getRoutesTemplateString trusted
+//@ extern github.com/aymerick/raymond.Render
+//@ ensures true
 
-//@ func GenerateRoutes props C09,C20,C10,C14 havocs
+//@ func GenerateRoutes props C09,C20,C10,C14
+//@ modifies helpersRegistered
 //@ requires config != nil
 //@ mayemit wroteFile, formattedCode
 //@ ensures once: evcount(wroteFile) <= old(evcount(wroteFile))+1
